@@ -46,6 +46,8 @@ func (c *Channel) read() {
 	defer func() {
 		verifhook.Point("chan.read.exit")
 		c.readLoopExited = true
+
+		close(c.readLoopDone)
 	}()
 
 	for {
@@ -82,7 +84,12 @@ func (c *Channel) read() {
 			)
 
 			verifhook.Point("chan.read.errs-send")
-			c.Errs <- err
+			select {
+			case c.Errs <- err:
+			case <-c.done:
+				// closing while nobody is consuming errors, don't block (or send) forever
+				return
+			}
 			verifhook.Point("chan.read.errs-sent")
 
 			time.Sleep(c.ReadDelay)
